@@ -118,6 +118,44 @@ def r2_mirrored_setters(r, facts):
         for loc, name, fv in field_writes:
             ok = any(v == fv for _, _, v in inner_writes)
             r.require(ok, 'setter:%s/retained-only' % f.path, 'builder retains %s but does not apply it to the first submission' % name, f.where(loc))
+    # ... and the constructors: what a composite retains at birth is what its first submission was built with.  A composite
+    # created in "current position" mode (inner operation built with NO_OFFSET) that retains a real offset continues with
+    # positional reads/writes after the first short transfer (wrong bytes, cursor left behind)
+    nc = 0
+    for f in facts.func_list:
+        if f.kind == 'closure':
+            continue
+        for loc, s_ in f.assigns():
+            rv = s_['rv']
+            if rv['k'] != 'agg' or (rv.get('adt') or '') not in adts or 'offset' not in (rv.get('fields') or []):
+                continue
+            eb = ExprBuilder(f, multi='phi')
+            fm = dict(zip(rv['fields'], [eb.operand(o) for o in rv['ops']]))
+            off = fm['offset']
+            # the inner operation: a call in this function into the crate whose body constructs an operation future
+            inner_args = []
+            for nm_, e_ in fm.items():
+                for x in subexprs(e_):
+                    if x[0] == 'call':
+                        g = facts.fn_opt(x[3] if len(x) > 3 and x[3] else x[1]) or facts.fn_opt(x[1])
+                        if g is None:
+                            continue
+                        eg = ExprBuilder(g, multi='phi')
+                        for l2, t2 in g.calls():
+                            if re.match(r'^(.+?)(::<.*>)?::new$', t2.get('callee') or '') and len(t2['args']) == 3:
+                                inner_args.append((g, eg.operand(t2['args'][2])))
+            if not inner_args:
+                continue
+            nc += 1
+            is_no = lambda x: x[0] == 'const' and str(x[2]).endswith('NO_OFFSET')
+            inner_no = any(is_no(x) for g, a in inner_args for x in subexprs(a))
+            off_s = off
+            while off_s[0] == 'cast':
+                off_s = off_s[4]
+            r.inst('%s: %s born with offset %s, first submission built with %s' % (f.path, rv['adt'].split('::')[-1], str(off_s)[:40], 'NO_OFFSET' if inner_no else 'an explicit offset'), f.where(loc))
+            if inner_no:
+                r.require(is_no(off_s), 'ctor:%s/offset' % f.path, 'the first submission uses the current file position (NO_OFFSET) but the composite retains offset %s: after the first short transfer the continuation is issued at an absolute offset (wrong data for a cursor that was not at 0; the cursor is left behind)' % (str(off_s)[:60],), f.where(loc))
+    r.require(nc >= 4, 'ctor/floor', 'only %d composite constructors with a retained offset found (read_n, read_n_vectored, write_all, write_all_vectored expected)' % nc)
     r.floor(8, 'composite builder methods')
 
 
